@@ -779,7 +779,13 @@ class Interp:
 
     def e_SetComp(self, e, fr):
         items = self.comp(e, fr, lambda f: self.eval(e.elt, f))
-        return SSet.of(SList(items))
+        flat = []
+        for g, x in items:
+            if isinstance(x, Choice):
+                flat.extend((band(g, h), y) for h, y in x.items)
+            else:
+                flat.append((g, x))
+        return SSet.of(SList(flat))
 
     def e_DictComp(self, e, fr):
         items = self.comp(e, fr, lambda f: (self.eval(e.key, f), self.eval(e.value, f)))
@@ -1053,6 +1059,59 @@ def m_iter(interp, x):
     return x
 
 
+class Choice(SList):
+    """One-of value (result of min over a guarded collection): guarded alternatives."""
+
+
+_pref_counter = [0]
+
+
+def m_min(interp, it, key=None):
+    """min() of a guarded collection under an *arbitrary* total preference (fresh Booleans): sound for every key."""
+    import z3
+
+    if not isinstance(it, (SSet, SList)) or SList.of(it).is_concrete():
+        vals = SList.of(it).concrete() if isinstance(it, (SSet, SList)) else list(it)
+        if key is None:
+            return min(vals)
+        return min(vals, key=lambda x: interp.apply(key, [x], {}))
+    items = SList.of(it).items
+    out = []
+    pref = {}
+    for i in range(len(items)):
+        for j in range(i + 1, len(items)):
+            _pref_counter[0] += 1
+            b = z3.Bool(f"pref_{_pref_counter[0]}")
+            pref[(i, j)] = b
+            pref[(j, i)] = z3.Not(b)
+    for i, (g, x) in enumerate(items):
+        others = [bor(bnot(h), pref[(i, j)]) for j, (h, _) in enumerate(items) if j != i]
+        out.append((band(g, *others), x))
+    M.record_raise(bnot(bor(*[g for g, _ in items])), "ValueError", "min() arg is an empty sequence")
+    return Choice(out)
+
+
+def m_groupby(interp, it, key=None):
+    items = SList.of(it).items if isinstance(it, (SSet, SList)) else [(True, x) for x in it]
+    kf = (lambda x: interp.apply(key, [x], {})) if key is not None else (lambda x: x)
+    groups = []
+    for g, x in items:
+        k = kf(x)
+        if groups and groups[-1][0] == k:
+            groups[-1][1].append((g, x))
+        else:
+            groups.append((k, [(g, x)]))
+    # a group exists on the paths where one of its members is present
+    return SList([(bor(*[g for g, _ in members]), (k, SList(members))) for k, members in groups])
+
+
+def nx_topological_sort(g):
+    """Stub: some valid topological order.  The universe order is returned; callers whose result could depend on
+    the particular order are covered because min() is modelled with an arbitrary preference."""
+    M.record_raise(bnot(g.is_acyclic_guard()), "NetworkXUnfeasible", "Graph contains a cycle")
+    return SList([(g.node[v], v) for v in g.U])
+
+
 def m_str(interp, x=""):
     return str(x)
 
@@ -1070,6 +1129,8 @@ BUILTIN_MODELS = {
     itt.combinations: m_combinations,
     itt.product: m_product,
     iter: m_iter,
+    min: m_min,
+    itt.groupby: m_groupby,
 }
 
 
@@ -1084,6 +1145,7 @@ NX_FUNCS = {
     "is_connected": M.nx_is_connected,
     "has_path": M.nx_has_path,
     "is_directed_acyclic_graph": M.nx_is_dag,
+    "topological_sort": nx_topological_sort,
 }
 
 NX_MODEL_SET = set(NX_FUNCS.values())
